@@ -4,6 +4,7 @@
 // TLS 1.2 and TLS 1.3 session tickets; Part B (E1): all key-rotation / clock /
 // handshake histories of one server Config up to a depth, against a reference
 // model; Part C: version / cipher-suite acceptability matrix at resumption;
+// Part G: GetConfigForClient arrangements (listener keys x per-client Config) x issued-under / offered-to matrix;
 // Part E3 (cmd/c31/e3, spawned by parte3.go): all interleavings of concurrent
 // handshakes on the ticket keys of one Config (rotation is check-then-act).
 package main
@@ -20,6 +21,7 @@ func main() {
 		c.Rule("A: per scenario (TLS1.2/1.3 x {ticket under head key, ticket under 2nd key, with client certificate}, TLS1.0/1.1 x {ticket under head key}) one genuine ticket x {every offset x {^01,^80,=00,=ff}, every truncation length, 5 kinds of extension by 1..16 bytes, 16 name/IV/body/MAC splices with another server's ticket, 3 foreign-key re-seals, other-version ticket}; TLS1.3 additionally the genuine ticket with a PSK binder that does not verify: client-side resumption secret / ticket nonce with every byte x {^01,^80} (nonce also extended by one byte), binder rewritten in flight at every byte x {^01,^80}, all bytes ^ff, all zero; " +
 			"B: every history of {4 SetSessionTicketKeys lists, clock +1h/+25h/+8d, full handshake, resumption with ticket #0..#2} up to the depth bound from 2 initial configs (auto keys, legacy SessionTicketKey) x TLS1.2/1.3, deduplicated on (key list, clock, ticket plaintext headers); " +
 			"C: issue (version,suite) x resumption-time client/server version caps and suite sets; " +
+			"G: TLS1.2/1.3 x arrangements {listener Config with explicit keys K1, with automatic keys} x GetConfigForClient {unset, returns nil, returns the listener Config, returns a Config with SetSessionTicketKeys[K2], with legacy SessionTicketKey K3, with SessionTicketsDisabled, with no keys (fresh), with no explicit keys but automatic keys of its own from earlier use as a listener}: one ticket issued under each arrangement (+ one by that other automatic Config as a listener) must be sealed under the head of the keys in force, and is offered to EVERY arrangement at +0 h and +25 h (thorough: +0, +1, +25, +49 h; automatic keys rotate once): it resumes exactly when sealed under a key in force for the connection (documented: the returned Config's explicit keys, else the original Config's keys; none when the returned Config disables tickets); " +
 			"E3 (stateless model checking under a cooperative scheduler, package tls compiled against sync shims; cmd/c31/e3): one server Config whose newest automatic ticket key is {absent, 1 s before / exactly at / 1 s after the 24 h rotation boundary} used at the same instant by {two issuing handshakes; an issuing handshake and one opening a ticket issued a rotation period earlier; two issuing handshakes and SetSessionTicketKeys}: every interleaving of the Config's lock operations with <= 2 preemptions (thorough 3), repeated in a -race build under ThreadSanitizer; afterwards each issued ticket is opened at +0, +1 min, +23 h 59 min (must open: its key is younger than seven days; tickets under the explicit key always; tickets under an automatic key once SetSessionTicketKeys ran: either) and at +8 d 1 h (must be refused unless under the explicit key); " +
 			"D: TLS1.0-1.3 x issue ClientAuth(5) x client has a certificate{f,t} [pruned: issuing handshake cannot complete] x resume ClientAuth(5) x both clocks{T0, T0+48h: past the client leaf's NotAfter} x ClientCAs{same, replaced}. A case is distinct by (scenario, offered ticket bytes, binder fault) / canonical state / matrix cell")
 		c.Assume(
@@ -27,6 +29,7 @@ func main() {
 			"resumption is observed three ways: ConnectionState.DidResume on both ends and the plaintext handshake shape (server Certificate present / pre_shared_key in ServerHello)",
 			"ticket lifetime: a ticket older than 7 days (maxSessionTicketLifetime, RFC 8446 4.6.1) may be refused; refusing is never a violation, honouring one older than 7 days is",
 			"E3: a handshake's use of the ticket keys is taken as config.ticketKeys(nil) followed by encryptTicket / decryptTicket on that snapshot (what readClientHello, sendSessionTicket and checkForResumption do), through two in-package accessors; documented behaviour used as the model: automatic keys are rotated every day and dropped after seven days, SetSessionTicketKeys turns rotation off and all its keys open tickets; the scheduler hand-off is invisible to ThreadSanitizer",
+			"G: keys in force per connection are transcribed from the doc comment of Config.GetConfigForClient (explicit keys of the returned Config are used, otherwise the original Config's keys, possibly rotated) and of SessionTicketsDisabled; whether a ticket is handed out while tickets are disabled is an outcome, such a ticket must not resume; the per-client Config is created per connection and never modified; listener Configs are Clones sharing the automatic key created by one earlier handshake",
 			"tls.Config.Clone is used to branch histories; branch-vs-replay equivalence is checked on all histories up to depth 3",
 			"PSK binder faults: RFC 8446 4.2.11 lets (requires) the server abort; accepted outcomes are a clean failure or a non-PSK handshake, never pre_shared_key in the ServerHello / DidResume",
 			"D: an authentic ticket resumes unless the rule documented at the resumption decision declines it (session without client certificate on a server that requires one: must not resume, the full handshake decides; session with a certificate on a NoClientCert server: either); a stored client chain that no longer verifies under a verifying mode must not resume error-free (failing the handshake is accepted); a resumed connection must show the server exactly the certificates proven in the original session",
@@ -43,6 +46,8 @@ func main() {
 				replayB(c, c.Replay)
 			case "C":
 				replayC(c, c.Replay)
+			case "G":
+				replayG(c, c.Replay)
 			case "D":
 				replayD(c, c.Replay)
 			case "E3":
@@ -61,6 +66,9 @@ func main() {
 		}
 		if only == "" || only == "D" {
 			partD(c)
+		}
+		if only == "" || only == "G" {
+			partG(c)
 		}
 		if only == "" || only == "B" {
 			partB(c)
